@@ -81,7 +81,8 @@ THEOREMS = {
             "Spydr.Verilog.Elab.wires_fold", "Spydr.Verilog.Elab.elabModule_frag", "Spydr.Verilog.Elab.elabDesign_frag",
             "Spydr.Verilog.Elab.exDesign_frag",
             "Spydr.Verilog.Elab.regrow_wf", "Spydr.Verilog.Elab.createOrUpdateCable_wf", "Spydr.Verilog.Elab.createOrUpdatePort_wf", "Spydr.Verilog.Elab.reorderPorts_wf", "Spydr.Verilog.Elab.portDecl_wf", "Spydr.Verilog.Elab.connectInstRow_wf", "Spydr.Verilog.Elab.instantiate_wf", "Spydr.Verilog.Elab.positional_wf", "Spydr.Verilog.Elab.assignStmt_wf", "Spydr.Verilog.Elab.elabModule_wf", "Spydr.Verilog.Elab.elabDesign_wf", "Spydr.Verilog.Elab.readV_wf", "Spydr.Verilog.Elab.structWF_iff", "Spydr.Verilog.Elab.reader_structWF", "Spydr.Verilog.Elab.elab_structWF", "Spydr.Verilog.Elab.exNet_structWF", "Spydr.Verilog.Elab.pending_not_emptied",
-            "Spydr.Verilog.Elab.createOrUpdateCable_ww", "Spydr.Verilog.Elab.elabDesign_ww", "Spydr.Verilog.Elab.reader_wiresWF", "Spydr.Verilog.Elab.elab_wiresWF", "Spydr.Verilog.Elab.exNet_wiresWF", "Spydr.Verilog.Elab.positional_too_many_rejected", "Spydr.Verilog.Elab.positional_undeclared_creates_ports"],
+            "Spydr.Verilog.Elab.createOrUpdateCable_ww", "Spydr.Verilog.Elab.elabDesign_ww", "Spydr.Verilog.Elab.reader_wiresWF", "Spydr.Verilog.Elab.elab_wiresWF", "Spydr.Verilog.Elab.exNet_wiresWF", "Spydr.Verilog.Elab.positional_too_many_rejected", "Spydr.Verilog.Elab.positional_undeclared_creates_ports",
+            "Spydr.Verilog.Elab.elabModule_lateWA", "Spydr.Verilog.Elab.elabModule_wtopA", "Spydr.Verilog.Elab.elabModule_leafX", "Spydr.Verilog.Elab.elabDesign_hierA"],
     "C04": ["Spydr.Verilog.emit_eval", "Spydr.Verilog.emit_eval_spec", "Spydr.Verilog.decl_range_roundtrip",
             "Spydr.Verilog.alias_header_roundtrip", "Spydr.Verilog.assign_regen", "Spydr.Verilog.assign_regen_all",
             "Spydr.Verilog.write_order_defined", "Spydr.Verilog.write_order_total", "Spydr.Verilog.visit_order_defined",
